@@ -27,7 +27,7 @@ against the real decoder, then read off `encoding/json/decode.go`):
 Core Lean only (linked into the `ocimodel` driver).
 -/
 import OciModel.Json
-import OciModel.Mem
+import OciModel.MemData
 import OciModel.Base64
 namespace OciModel.ManifestDecode
 open OciModel OciModel.Json OciModel.Mem
